@@ -31,6 +31,11 @@ def run_pipe_correspondence(ctx, scs, builtin, label="pipe"):
     """model vs implementation on scenarios; returns (impl_outputs, model_outputs)."""
     impl = lib.run_vh("lint", [pipe.impl_case(s) for s in scs])
     mod = lib.run_model("pipe", "pipe", [pipe.model_line(s, builtin) for s in scs])
+    # the theorem pipeline_order_independent, exercised: reversed hash order gives the same model output
+    k = min(len(scs), 3000)
+    mod_rev = lib.run_model("pipe", "pipe", [pipe.model_line(s, builtin, oracle=1) for s in scs[:k]])
+    ndiff = sum(1 for a, b in zip(mod[:k], mod_rev) if a != b)
+    ctx.obligation("extracted model: identity vs reversed hash-iteration oracle give equal output on %d scenarios" % k, ndiff == 0, "%d differ" % ndiff)
     mism = []
     seen = set()
     nontriv = 0
